@@ -3,6 +3,12 @@ from vf import gen_ir, model
 from vf.core import Prop, Result
 
 
+def leaf_data(inst):
+    """user data of a leaf instance; the EDIF identifier is naming metadata that flatten has to renew
+    (the instance moves into another scope), not data"""
+    return model.data_of(inst, drop=(".NS", ".NAME", "EDIF.identifier"))
+
+
 class C09(Prop):
     ID = "C09"
     RULE = ("named design recipes (<=3 libraries, <=7 definitions, depth<=5, pass-through and wire-only "
@@ -28,6 +34,9 @@ class C09(Prop):
     def strategy(self, tier):
         return gen_ir.recipes(self.cfg(tier))
 
+    def fixed_cases(self, tier):
+        return gen_ir.example_cases(tier)
+
     def run(self, case):
         import spydrnet.uniquify as U
         import spydrnet.flatten as F
@@ -36,11 +45,25 @@ class C09(Prop):
         U.MOD_NAME_UID = 0
         F.mod_name_uid = 0
         F.unique_number = 0
-        B = gen_ir.build(case)
-        nl = B.netlist
-        pre = model.wf(nl, strict=True)
-        if pre:
-            raise RuntimeError("generator produced ill-formed netlist: %r" % pre[:3])
+        if "example" in case:
+            nl = gen_ir.load_example(case)
+            res.label("bundled-example")
+            usable = nl is not None and nl.top_instance is not None and not model.wf(nl, strict=True)
+            if usable:
+                for L in nl.libraries:
+                    for D in L.definitions:
+                        for x in list(D.children) + list(D.cables):
+                            if x.name is None or "/" in x.name:
+                                usable = False
+            if not usable:
+                res.label("example-not-usable")
+                return res
+        else:
+            B = gen_ir.build(case)
+            nl = B.netlist
+            pre = model.wf(nl, strict=True)
+            if pre:
+                raise RuntimeError("generator produced ill-formed netlist: %r" % pre[:3])
         ndefs = sum(len(L.definitions) for L in nl.libraries)
         try:
             U.uniquify(nl)
@@ -60,7 +83,7 @@ class C09(Prop):
             for pos, ch in enumerate(I.reference.children):
                 p = path + (ch.name,)
                 if model.is_leaf_def(ch.reference):
-                    insts[p] = (ch.reference, model.data_of(ch))
+                    insts[p] = (ch.reference, leaf_data(ch))
                 else:
                     walk(ch, p)
 
@@ -97,9 +120,8 @@ class C09(Prop):
                 ch = got[name]
                 if ch.reference is not R:
                     res.violate("C09:leaf-definition-changed", name)
-                if model.data_of(ch) != data:
-                    res.violate("C09:leaf-data-changed", "%s: %r -> %r" % (name, data,
-                                                                          model.data_of(ch)))
+                if leaf_data(ch) != data:
+                    res.violate("C09:leaf-data-changed", "%s: %r -> %r" % (name, data, leaf_data(ch)))
         # partition read directly off the flat top definition
         port_pos = {}
         for pi, P in enumerate(T.ports):
